@@ -192,11 +192,14 @@ def storagePart (e : Ent) : StoragePart → List Tag
 /-- `XData.export_dxf` (options.filter_invalid_xdata_group_codes = True) -/
 def xdataOut (e : Ent) : List Tag := (e.xdata.map (fun p => p.2.filter validX)).flatten
 
+/-- `if self.reactors: self.reactors.export_dxf(tagwriter)` (an empty set is falsy) -/
+def reactorsPart (r : Option (List V)) : Except Err (List Tag) :=
+  match r with
+  | some (x :: xs) => reactorsOut (x :: xs)
+  | _ => .ok []
+
 def exportEnt (alive : V → Bool) (e : Ent) : Except Err (List Tag) :=
-  let re : Except Err (List Tag) := match e.reactors with
-    | some (r :: rs) => reactorsOut (r :: rs)
-    | _ => .ok []
-  match re with
+  match reactorsPart e.reactors with
   | .error x => .error x
   | .ok re =>
     .ok (entityOrder.flatMap fun
@@ -459,9 +462,9 @@ def passSections (recs : List Rec) : Except SErr (List Tag) :=
 
 /-! ## custom header properties and CLASS registration -/
 
-def sCustomTag : List Nat := "$CUSTOMPROPERTYTAG".toList.map Char.toNat
-def sCustomProp : List Nat := "$CUSTOMPROPERTY".toList.map Char.toNat
-def sLastSavedBy : List Nat := "$LASTSAVEDBY".toList.map Char.toNat
+def sCustomTag : List Nat := [36, 67, 85, 83, 84, 79, 77, 80, 82, 79, 80, 69, 82, 84, 89, 84, 65, 71]   -- "$CUSTOMPROPERTYTAG"
+def sCustomProp : List Nat := [36, 67, 85, 83, 84, 79, 77, 80, 82, 79, 80, 69, 82, 84, 89]   -- "$CUSTOMPROPERTY"
+def sLastSavedBy : List Nat := [36, 76, 65, 83, 84, 83, 65, 86, 69, 68, 66, 89]   -- "$LASTSAVEDBY"
 
 /-- `custom_property_stack`: the first value of every $CUSTOMPROPERTYTAG / $CUSTOMPROPERTY group in file order;
     a header group is (variable name, value of its first tag) -/
@@ -487,5 +490,75 @@ def customWritten (exported : List V) (ps : List (V × V)) : List (V × V) :=
 def register (acc : List (V × V)) : List (V × V) → List (V × V)
   | [] => acc
   | c :: r => if acc.contains c then register acc r else register (acc ++ [c]) r
+
+/-! ## example inputs (non-vacuity checks and counterexamples of Props/C02.lean) -/
+namespace Ex
+
+def T (c : Nat) (s : String) : Tag := ⟨c, .str (s.toList.map Char.toNat)⟩
+
+/-- an unknown entity in ezdxf's order: application group, extension dictionary, three reactors, two subclasses with a point,
+    a binary chunk, a 64-bit integer and pointers, an embedded object, two XDATA sets with nested lists -/
+def widget : List Tag :=
+  [T 0 "ACME_WIDGET", T 5 "2F", T 102 "{ACME", T 1 "x", T 340 "1A", T 102 "}",
+   T 102 "{ACAD_XDICTIONARY", T 360 "30", T 102 "}",
+   T 102 "{ACAD_REACTORS", T 330 "9", T 330 "1B", T 330 "100", T 102 "}", T 330 "1F",
+   T 100 "AcDbEntity", T 8 "0", T 100 "AcmeWidget", T 10 "1.0,2.0,3.0", T 310 "DEADBEEF", T 160 "9223372036854775807",
+   T 340 "2A", T 102 "{NOT_A_GROUP_HERE", T 101 "Embedded Object", T 1 "inner",
+   T 1001 "ACME", T 1000 "s", T 1002 "{", T 1070 "1", T 1002 "{", T 1005 "2A", T 1002 "}", T 1002 "}",
+   T 1001 "OTHER", T 1010 "0.0,0.0,1.0"]
+
+/-- the same entity as another application may write it: owner first, reactors unsorted, groups in another order -/
+def widgetShuffled : List Tag :=
+  [T 0 "ACME_WIDGET", T 330 "1F", T 102 "{ACAD_REACTORS", T 330 "100", T 330 "9", T 330 "1B", T 102 "}",
+   T 102 "{ACAD_XDICTIONARY", T 360 "30", T 102 "}", T 102 "{ACME", T 1 "x", T 340 "1A", T 102 "}", T 5 "2F",
+   T 100 "AcDbEntity", T 8 "0", T 100 "AcmeWidget", T 10 "1.0,2.0,3.0", T 310 "DEADBEEF", T 160 "9223372036854775807",
+   T 340 "2A", T 102 "{NOT_A_GROUP_HERE", T 101 "Embedded Object", T 1 "inner",
+   T 1001 "ACME", T 1000 "s", T 1002 "{", T 1070 "1", T 1002 "{", T 1005 "2A", T 1002 "}", T 1002 "}",
+   T 1001 "OTHER", T 1010 "0.0,0.0,1.0"]
+
+def allAlive : V → Bool := fun _ => true
+def noneAlive : V → Bool := fun _ => false
+
+def dupXdata : List Tag :=
+  [T 0 "FOO", T 5 "A", T 330 "B", T 100 "AcDbFoo", T 1001 "APP", T 1000 "first", T 1001 "OTHER", T 1000 "o",
+   T 1001 "APP", T 1000 "second"]
+def dupXdataOut : List Tag :=
+  [T 0 "FOO", T 5 "A", T 330 "B", T 100 "AcDbFoo", T 1001 "APP", T 1000 "second", T 1001 "OTHER", T 1000 "o"]
+
+def foreignBase : List Tag := [T 0 "FOO", T 5 "A", T 1 "foreign", T 330 "B", T 100 "AcDbFoo"]
+def foreignBaseOut : List Tag := [T 0 "FOO", T 5 "A", T 330 "B", T 100 "AcDbFoo"]
+
+def altClose : List Tag := [T 0 "FOO", T 5 "A", T 102 "{APP", T 1 "x", T 102 "APP}", T 330 "B"]
+def altCloseOut : List Tag := [T 0 "FOO", T 5 "A", T 102 "{APP", T 1 "x", T 102 "APP}", T 102 "}", T 330 "B"]
+
+def xdictEnt : List Tag := [T 0 "FOO", T 5 "A", T 102 "{ACAD_XDICTIONARY", T 360 "30", T 102 "}", T 330 "B"]
+def bareEnt : List Tag := [T 0 "FOO", T 5 "A", T 330 "B"]
+
+def emptyReactors : List Tag := [T 0 "FOO", T 5 "A", T 102 "{ACAD_REACTORS", T 102 "}", T 330 "B"]
+
+def dupAppKey : List Tag :=
+  [T 0 "FOO", T 5 "A", T 102 "{APP", T 1 "first", T 102 "}", T 102 "{APP", T 1 "second", T 102 "}", T 330 "B"]
+def dupAppKeyOut : List Tag := [T 0 "FOO", T 5 "A", T 102 "{APP", T 1 "second", T 102 "}", T 330 "B"]
+
+def twoHandles : List Tag := [T 0 "FOO", T 5 "A", T 5 "B", T 330 "C", T 330 "D"]
+def twoHandlesOut : List Tag := [T 0 "FOO", T 5 "B", T 330 "C"]
+
+def noHandle : List Tag := [T 0 "FOO", T 100 "AcDbFoo"]
+def noHandleOut : List Tag := [T 0 "FOO", T 5 "None", T 330 "0", T 100 "AcDbFoo"]
+
+def secRec (name : String) : Rec := [T 0 "SECTION", T 2 name]
+/-- a file with a thumbnail, an unknown section, a managed section and a second unknown section -/
+def fileRecs : List Rec :=
+  [secRec "THUMBNAILIMAGE", [T 0 "x", T 90 "3"], [endsecTag], secRec "FOO", [T 0 "BAR", T 1 "payload"], [endsecTag],
+   secRec "OBJECTS", [T 0 "DICTIONARY", T 5 "C"], [endsecTag], secRec "ZED", [endsecTag], [eofTag]]
+def fileStoredOut : List Tag :=
+  [T 0 "SECTION", T 2 "FOO", T 0 "BAR", T 1 "payload", endsecTag, T 0 "SECTION", T 2 "ZED", endsecTag]
+
+/-- the same section name twice -/
+def dupSection : List Rec :=
+  [secRec "FOO", [T 0 "BAR", T 1 "first"], [endsecTag], secRec "FOO", [T 0 "BAR", T 1 "second"], [endsecTag], [eofTag]]
+def dupSectionOut : List Tag := [T 0 "SECTION", T 2 "FOO", T 0 "BAR", T 1 "second", endsecTag]
+
+end Ex
 
 end EzdxfVerif.Storage
